@@ -39,9 +39,66 @@ MIN_OBLIGATIONS = 25
 M = "liquid.extra.tags.extends_tag"
 
 
+def check_extends_cycle(repo: Repo, res: Result, rule: str = "C18-CYCLE") -> None:
+    """The walk up an ``extends`` chain terminates and rejects cycles: the parent name is tested
+    against a fresh ``seen`` set (raise), recorded and loaded — the same expression all three
+    times — and the walk is the plain ``while next_template`` loop.  Shared with C09 (termination
+    of the two chain-walk loops)."""
+    # ---- C18-CYCLE ------------------------------------------------------------------
+    for fq, gt in ((f"{M}._build_block_stacks", "get_template"), (f"{M}._build_block_stacks_async", "get_template_async")):
+        f = repo.func(fq)
+        inner = next((n for n in f.node.body if isinstance(n, (ast.FunctionDef, ast.AsyncFunctionDef)) and n.name == "_stack_template_blocks"), None)
+        res.ob(fq, 3)
+        if inner is None:
+            res.add(rule, fq, "shape", f"{fq}: helper _stack_template_blocks not found", f.file, f.line)
+            continue
+        state = {"loaded_checked": None}
+
+        def gen(st):
+            out = set()
+            for c in calls(st):
+                if callee_name(c) == "add" and is_name(c.func.value, "seen"):
+                    out.add("recorded")
+            return out
+
+        def gen_cond(test, truth):
+            if isinstance(test, ast.Compare) and isinstance(test.ops[0], ast.In) and is_name(test.comparators[0], "seen") and not truth:
+                return {"not-seen"}
+            return set()
+
+        def visit(node, st):
+            for c in node_calls(node):
+                if callee_name(c) == gt:
+                    state["loaded_checked"] = {"not-seen", "recorded"} <= st
+
+        MustFlow(gen=gen, gen_cond=gen_cond, visit=visit).run(inner)
+        if state["loaded_checked"] is not True:
+            res.add(rule, fq, "seen-before-load", f"{fq}: the parent is loaded without first testing `name in seen` (raise) and recording it — a circular extends chain recurses until the stack overflows", f.file, inner.lineno)
+        seen_if = next((n for n in ast.walk(inner) if isinstance(n, ast.If) and isinstance(n.test, ast.Compare) and is_name(n.test.comparators[0], "seen")), None)
+        if seen_if is None or not (len(seen_if.body) == 1 and isinstance(seen_if.body[0], ast.Raise) and "TemplateInheritanceError" in text(seen_if.body[0])):
+            res.add(rule, fq, "raise", f"{fq}: a repeated parent name must raise TemplateInheritanceError", f.file, inner.lineno)
+        # the key tested, recorded and loaded is the same expression
+        keyt = text(seen_if.test.left) if seen_if is not None else None
+        adds = [text(c.args[0]) for c in calls(inner) if callee_name(c) == "add" and is_name(c.func.value, "seen")]
+        loads = [text(c.args[0]) for c in calls(inner) if callee_name(c) == gt and c.args]
+        if not adds or any(a != keyt for a in adds) or any(l != keyt for l in loads):
+            res.add(rule, fq, f"key:{keyt}:{adds}:{loads}", f"{fq}: the name tested against `seen`, recorded in it and loaded must be the same expression", f.file, inner.lineno)
+        # the walk: while next_template: next_template = _stack_template_blocks(next_template)
+        loops = [n for n in f.node.body if isinstance(n, ast.While)]
+        ok = len(loops) == 1 and is_name(loops[0].test, "next_template") and any(
+            isinstance(s, ast.Assign) and is_name(s.targets[0], "next_template") and isinstance(unwrap_await(s.value), ast.Call) and callee_name(unwrap_await(s.value)) == "_stack_template_blocks" and is_name(unwrap_await(s.value).args[0], "next_template")
+            for s in loops[0].body
+        )
+        if not ok:
+            res.add(rule, fq, "walk", f"{fq}: the chain walk must be `while next_template: next_template = _stack_template_blocks(next_template)`", f.file, f.line)
+        if not any(isinstance(s, (ast.Assign, ast.AnnAssign)) and "seen" in text(s).split("=")[0] and "set()" in text(s) for s in f.node.body):
+            res.add(rule, fq, "fresh-seen", f"{fq}: `seen` must be a fresh set per call", f.file, f.line)
+
+
+
 def run(repo: Repo) -> Result:
     res = Result(PID)
-    res.rules = ["C18-STOP", "C18-CYCLE", "C18-CHECKS", "C18-SELECT", "C18-REQUIRED"]
+    res.rules = ["C18-BLANK", "C18-STOP", "C18-CYCLE", "C18-CHECKS", "C18-SELECT", "C18-REQUIRED"]
     res.explanation = "presence and order (dominance) of the inheritance cut-offs and the block-stack selection shape"
     res.assumptions = ["selection semantics over arbitrary chains beyond these shapes are value-level"]
 
@@ -73,55 +130,15 @@ def run(repo: Repo) -> Result:
                 res.ob(f"stoprender-handler:{g.qual}")
                 res.add("C18-STOP", g.qual, "foreign-handler", f"{g.qual} catches StopRender", g.file, h.lineno)
 
-    # ---- C18-CYCLE ------------------------------------------------------------------
-    for fq, gt in ((f"{M}._build_block_stacks", "get_template"), (f"{M}._build_block_stacks_async", "get_template_async")):
-        f = repo.func(fq)
-        inner = next((n for n in f.node.body if isinstance(n, (ast.FunctionDef, ast.AsyncFunctionDef)) and n.name == "_stack_template_blocks"), None)
-        res.ob(fq, 3)
-        if inner is None:
-            res.add("C18-CYCLE", fq, "shape", f"{fq}: helper _stack_template_blocks not found", f.file, f.line)
-            continue
-        state = {"loaded_checked": None}
+    check_extends_cycle(repo, res)
 
-        def gen(st):
-            out = set()
-            for c in calls(st):
-                if callee_name(c) == "add" and is_name(c.func.value, "seen"):
-                    out.add("recorded")
-            return out
+    # ---- C18-BLANK ------------------------------------------------------------------
+    # a `{% block %}` renders its most-derived override (another template's nodes) and an
+    # `{% extends %}` renders the base template: neither output is predictable from the node's own
+    # default body, so neither may claim to be blank (sa/engines/blank.py)
+    from ..engines.blank import check_blank
 
-        def gen_cond(test, truth):
-            if isinstance(test, ast.Compare) and isinstance(test.ops[0], ast.In) and is_name(test.comparators[0], "seen") and not truth:
-                return {"not-seen"}
-            return set()
-
-        def visit(node, st):
-            for c in node_calls(node):
-                if callee_name(c) == gt:
-                    state["loaded_checked"] = {"not-seen", "recorded"} <= st
-
-        MustFlow(gen=gen, gen_cond=gen_cond, visit=visit).run(inner)
-        if state["loaded_checked"] is not True:
-            res.add("C18-CYCLE", fq, "seen-before-load", f"{fq}: the parent is loaded without first testing `name in seen` (raise) and recording it — a circular extends chain recurses until the stack overflows", f.file, inner.lineno)
-        seen_if = next((n for n in ast.walk(inner) if isinstance(n, ast.If) and isinstance(n.test, ast.Compare) and is_name(n.test.comparators[0], "seen")), None)
-        if seen_if is None or not (len(seen_if.body) == 1 and isinstance(seen_if.body[0], ast.Raise) and "TemplateInheritanceError" in text(seen_if.body[0])):
-            res.add("C18-CYCLE", fq, "raise", f"{fq}: a repeated parent name must raise TemplateInheritanceError", f.file, inner.lineno)
-        # the key tested, recorded and loaded is the same expression
-        keyt = text(seen_if.test.left) if seen_if is not None else None
-        adds = [text(c.args[0]) for c in calls(inner) if callee_name(c) == "add" and is_name(c.func.value, "seen")]
-        loads = [text(c.args[0]) for c in calls(inner) if callee_name(c) == gt and c.args]
-        if not adds or any(a != keyt for a in adds) or any(l != keyt for l in loads):
-            res.add("C18-CYCLE", fq, f"key:{keyt}:{adds}:{loads}", f"{fq}: the name tested against `seen`, recorded in it and loaded must be the same expression", f.file, inner.lineno)
-        # the walk: while next_template: next_template = _stack_template_blocks(next_template)
-        loops = [n for n in f.node.body if isinstance(n, ast.While)]
-        ok = len(loops) == 1 and is_name(loops[0].test, "next_template") and any(
-            isinstance(s, ast.Assign) and is_name(s.targets[0], "next_template") and isinstance(unwrap_await(s.value), ast.Call) and callee_name(unwrap_await(s.value)) == "_stack_template_blocks" and is_name(unwrap_await(s.value).args[0], "next_template")
-            for s in loops[0].body
-        )
-        if not ok:
-            res.add("C18-CYCLE", fq, "walk", f"{fq}: the chain walk must be `while next_template: next_template = _stack_template_blocks(next_template)`", f.file, f.line)
-        if not any(isinstance(s, (ast.Assign, ast.AnnAssign)) and "seen" in text(s).split("=")[0] and "set()" in text(s) for s in f.node.body):
-            res.add("C18-CYCLE", fq, "fresh-seen", f"{fq}: `seen` must be a fresh set per call", f.file, f.line)
+    check_blank(repo, res, "C18-BLANK", only=lambda c: c.module.name == M, min_classes=2)
 
     # ---- C18-CHECKS -------------------------------------------------------------------
     sb = repo.func(f"{M}._stack_blocks")
